@@ -24,9 +24,11 @@ pub struct UndoState {
     pub um: UndoManager<()>,
     pub clock: Arc<AtomicU64>,
     pub scope: Vec<String>,
-    /// distinct consecutive states of the tracked types along the captured steps, and where we are
-    pub d: Vec<String>,
-    pub pos: usize,
+    /// content of the tracked types when the undo stack was last empty, after each item of the
+    /// manager's undo stack, and the content each item of its redo stack restores
+    pub base: String,
+    pub stack_states: Vec<String>,
+    pub redo_states: Vec<String>,
     /// no untracked origin has changed the tracked types since the stacks were last empty/cleared
     pub pure: bool,
     pub stack_len: usize,
@@ -42,6 +44,7 @@ pub struct UndoState {
     /// set by deep observers on the tracked roots: something under a tracked root was touched
     pub touched: Arc<std::sync::atomic::AtomicBool>,
     pub subs: Vec<yrs::Subscription>,
+    pub why: Vec<&'static str>,
 }
 
 const TIMEOUT: u64 = 500;
@@ -145,8 +148,9 @@ fn ensure(w: &mut World) {
         um,
         clock,
         scope,
-        d: vec![base],
-        pos: 0,
+        base,
+        stack_states: Vec::new(),
+        redo_states: Vec::new(),
         pure: true,
         stack_len: 0,
         origin_of: HashMap::new(),
@@ -159,6 +163,7 @@ fn ensure(w: &mut World) {
         cur_origin: None,
         touched,
         subs,
+        why: Vec::new(),
     });
 }
 
@@ -202,6 +207,13 @@ fn all_tags(o: &SeqObs) -> HashSet<Tag> {
 
 pub fn post_txn(w: &mut World, n: usize, kind: &TxnKind, uid: Option<usize>) -> VResult {
     ensure(w);
+    let r = post_txn_inner(w, n, kind, uid);
+    flush_probes(w);
+    r
+}
+
+fn post_txn_inner(w: &mut World, n: usize, kind: &TxnKind, uid: Option<usize>) -> VResult {
+    ensure(w);
     crate::monitors::check_closed_as(w, n, "undo")?;
     if n != 0 {
         return Ok(());
@@ -236,36 +248,42 @@ pub fn post_txn(w: &mut World, n: usize, kind: &TxnKind, uid: Option<usize>) -> 
                         st.user_deleted.insert(t.clone());
                     }
                 }
-                // a captured transaction: the redo history is gone; a new step or an extension
-                if new_len != st.stack_len || tracked != st.pre_tracked {
-                    st.d.truncate(st.pos + 1);
-                    if new_len > st.stack_len {
-                        if tracked != st.d[st.pos] {
-                            st.d.push(tracked.clone());
-                            st.pos += 1;
+                // a captured transaction: a new stack item or an extension of the top one; the
+                // redo stack is cleared by any captured change
+                if st.stack_len == 0 && new_len == 1 && st.um.redo_stack().is_empty() {
+                    // both stacks were empty: a new history starts here
+                    st.base = st.pre_tracked.clone();
+                    st.stack_states.clear();
+                    st.redo_states.clear();
+                    if !st.pure {
+                        st.why.push("undo.pure-again:new-history");
+                    }
+                    st.pure = true;
+                }
+                if new_len != st.stack_len || tracked != st.pre_tracked || st.touched.load(Ordering::SeqCst) {
+                    st.redo_states.truncate(st.um.redo_stack().len());
+                    while st.stack_states.len() > new_len {
+                        st.stack_states.pop();
+                    }
+                    if st.stack_states.len() < new_len {
+                        while st.stack_states.len() < new_len {
+                            st.stack_states.push(tracked.clone());
                         }
-                    } else if tracked != st.d[st.pos] {
-                        // the current step was extended
-                        if st.pos > 0 && st.d[st.pos - 1] == tracked {
-                            st.d.pop();
-                            st.pos -= 1;
-                        } else if st.pos == 0 {
-                            // extension of a step that so far had no visible effect
-                            st.d.push(tracked.clone());
-                            st.pos += 1;
-                        } else {
-                            st.d[st.pos] = tracked.clone();
-                        }
+                    } else if let Some(last) = st.stack_states.last_mut() {
+                        *last = tracked.clone();
+                    } else if tracked != st.base {
+                        // changed although nothing was captured: the model cannot follow
+                        { st.pure = false; st.why.push("undo.impure:uncaptured-change"); }
                     }
                 }
             } else if tracked != st.pre_tracked || st.touched.load(Ordering::SeqCst) {
-                st.pure = false;
+                { st.pure = false; st.why.push("undo.impure:other-origin"); }
             }
             st.stack_len = new_len;
         }
         TxnKind::Remote(_, _) | TxnKind::Gc => {
             if tracked != st.pre_tracked || st.touched.load(Ordering::SeqCst) {
-                st.pure = false;
+                { st.pure = false; st.why.push("undo.impure:remote"); }
             }
             // remote elements are foreign
             let was = all_tags(&pre_seq);
@@ -317,6 +335,13 @@ fn container_tracked(st: &UndoState, t: &Tag, depth: u32) -> bool {
 }
 
 fn do_undo_redo(w: &mut World, undo: bool) -> VResult {
+    ensure(w);
+    let r = do_undo_redo_inner(w, undo);
+    flush_probes(w);
+    r
+}
+
+fn do_undo_redo_inner(w: &mut World, undo: bool) -> VResult {
     ensure(w);
     let scope = w.mon.undo.as_ref().unwrap().scope.clone();
     let before_tracked = scoped_dump(w, &scope, true);
@@ -379,90 +404,108 @@ fn do_undo_redo(w: &mut World, undo: bool) -> VResult {
             }
         }
     }
-    // inverse law: stuttering walk over the distinct recorded states
+    // inverse law: one call reverts one step, passing over steps that changed nothing visible
     let st = w.mon.undo.as_mut().unwrap();
-    st.stack_len = st.um.undo_stack().len();
-    if st.pure {
-        if undo {
-            let cur = st.d[st.pos].clone();
-            if before_tracked != cur {
-                // the model lost track (should not happen while pure)
-                st.pure = false;
-                return Ok(());
-            }
-            if after_tracked == cur {
-                // stutter: a step without visible effect was passed over, or nothing to undo
-                if !did && st.pos > 0 {
-                    return Err(viol(
-                        "undo.inverse",
-                        format!(
-                            "undo() reported nothing to undo, but {} captured step(s) with visible effect have not been undone\n  current : {}\n  expected: {}",
-                            st.pos, cur, st.d[st.pos - 1]
-                        ),
-                    ));
-                }
-                if did && !can_more && st.pos > 0 {
-                    return Err(viol(
-                        "undo.inverse",
-                        format!(
-                            "the undo stack ran dry although {} captured step(s) with visible effect are not undone\n  current : {}\n  expected: {}",
-                            st.pos, cur, st.d[st.pos - 1]
-                        ),
-                    ));
-                }
-            } else if st.pos > 0 && after_tracked == st.d[st.pos - 1] {
-                st.pos -= 1;
-                if !can_more && st.pos > 0 {
-                    return Err(viol(
-                        "undo.inverse",
-                        format!("the undo stack ran dry although {} captured step(s) with visible effect are not undone", st.pos),
-                    ));
-                }
-            } else {
-                return Err(viol(
-                    "undo.inverse",
-                    format!(
-                        "undo() did not restore the tracked types to the content before the last captured step\n  before undo: {}\n  after undo : {}\n  expected   : {}",
-                        cur,
-                        after_tracked,
-                        if st.pos > 0 { st.d[st.pos - 1].clone() } else { "(no captured step left: unchanged)".into() }
-                    ),
-                ));
-            }
-        } else {
-            let cur = st.d[st.pos].clone();
-            if before_tracked != cur {
-                st.pure = false;
-                return Ok(());
-            }
-            if after_tracked == cur {
-                if !did && st.pos + 1 < st.d.len() {
-                    return Err(viol(
-                        "undo.inverse",
-                        format!(
-                            "redo() reported nothing to redo, but {} undone step(s) with visible effect have not been redone\n  current : {}\n  expected: {}",
-                            st.d.len() - 1 - st.pos,
-                            cur,
-                            st.d[st.pos + 1]
-                        ),
-                    ));
-                }
-            } else if st.pos + 1 < st.d.len() && after_tracked == st.d[st.pos + 1] {
-                st.pos += 1;
-            } else {
-                return Err(viol(
-                    "undo.inverse",
-                    format!(
-                        "redo() did not restore the tracked types to the content after the undone step\n  before redo: {}\n  after redo : {}\n  expected   : {}",
-                        cur,
-                        after_tracked,
-                        if st.pos + 1 < st.d.len() { st.d[st.pos + 1].clone() } else { "(nothing to redo: unchanged)".into() }
-                    ),
-                ));
-            }
+    let new_undo = st.um.undo_stack().len();
+    let new_redo = st.um.redo_stack().len();
+    st.stack_len = new_undo;
+    if !st.pure {
+        st.why.push("undo.inverse-skipped:impure");
+        // keep the model in step with the stacks
+        st.stack_states.resize(new_undo, after_tracked.clone());
+        st.redo_states.resize(new_redo, after_tracked.clone());
+        return Ok(());
+    }
+    let cur = before_tracked.clone();
+    st.why.push(if undo { "undo.inverse-evaluated:undo" } else { "undo.inverse-evaluated:redo" });
+    if did && after_tracked != cur {
+        st.why.push("undo.inverse-evaluated:visible-change");
+    }
+    if undo {
+        let mut states = vec![st.base.clone()];
+        states.extend(st.stack_states.iter().cloned());
+        if states.last() != Some(&cur) {
+            { st.pure = false; st.why.push("undo.impure:model-lost-before-undo"); }
+            st.stack_states.resize(new_undo, after_tracked.clone());
+            st.redo_states.resize(new_redo, after_tracked.clone());
+            return Ok(());
         }
+        // The manager pops items until one of them changes something. The content must now be the
+        // one recorded at the new stack height, and no visible state may have been passed over:
+        // only the last popped item may be one with a visible effect.
+        let old = st.stack_states.len();
+        let expected = if new_undo <= old { Some(states[new_undo].clone()) } else { None };
+        let passed_over = (new_undo + 1..=old).any(|k| states[k] != cur);
+        let ok = match &expected {
+            Some(e) => after_tracked == *e && !passed_over,
+            None => after_tracked == cur,
+        };
+        if !ok {
+            return Err(viol(
+                "undo.inverse",
+                format!(
+                    "undo() (returned {}, stack {} -> {} items) did not restore the tracked types to the content before the last captured step with a visible effect\n  before undo: {}\n  after undo : {}\n  expected   : {}",
+                    did,
+                    st.stack_states.len(),
+                    new_undo,
+                    cur,
+                    after_tracked,
+                    expected.unwrap_or_else(|| "(no captured step with a visible effect: unchanged)".into())
+                ),
+            ));
+        }
+        let grown = new_redo.saturating_sub(st.redo_states.len());
+        for _ in 0..grown {
+            st.redo_states.push(cur.clone());
+        }
+        st.redo_states.truncate(new_redo);
+        st.stack_states.truncate(new_undo);
+        // whatever is left on the stack must end in the content we see now
+        if let Some(last) = st.stack_states.last() {
+            if *last != after_tracked {
+                { st.pure = false; st.why.push("undo.impure:stack-top-mismatch"); }
+            }
+        } else if st.base != after_tracked {
+            { st.pure = false; st.why.push("undo.impure:base-mismatch"); }
+        }
+        let _ = can_more;
+    } else {
+        let old = st.redo_states.len();
+        let expected = if new_redo < old { Some(st.redo_states[new_redo].clone()) } else { None };
+        let passed_over = (new_redo + 1..old).any(|k| st.redo_states[k] != cur);
+        let ok = match &expected {
+            Some(e) => after_tracked == *e && !passed_over,
+            None => after_tracked == cur,
+        };
+        if !ok {
+            return Err(viol(
+                "undo.inverse",
+                format!(
+                    "redo() (returned {}, redo stack {} -> {} items) did not restore the tracked types to the content after the undone step\n  before redo: {}\n  after redo : {}\n  expected   : {}",
+                    did,
+                    st.redo_states.len(),
+                    new_redo,
+                    cur,
+                    after_tracked,
+                    expected.unwrap_or_else(|| "(nothing with a visible effect to redo: unchanged)".into())
+                ),
+            ));
+        }
+        let grown = new_undo.saturating_sub(st.stack_states.len());
+        for k in 0..grown {
+            st.stack_states.push(if k + 1 == grown { after_tracked.clone() } else { cur.clone() });
+        }
+        st.stack_states.truncate(new_undo);
+        st.redo_states.truncate(new_redo);
     }
     Ok(())
+}
+
+fn flush_probes(w: &mut World) {
+    let why: Vec<&'static str> = std::mem::take(&mut w.mon.undo.as_mut().unwrap().why);
+    for p in why {
+        w.probe(p);
+    }
 }
 
 pub fn at_quiescence(_w: &mut World) -> VResult {
@@ -513,8 +556,9 @@ pub fn exec(w: &mut World, _n: usize, k: &str, a: &[u64], _s: &[String]) -> VRes
             let base = scoped_dump(w, &scope, true);
             let st = w.mon.undo.as_mut().unwrap();
             st.um.clear_all();
-            st.d = vec![base];
-            st.pos = 0;
+            st.base = base;
+            st.stack_states.clear();
+            st.redo_states.clear();
             st.pure = true;
             st.stack_len = 0;
             Ok(())
